@@ -115,7 +115,7 @@ func ruleOutputGate(rulePrefix string) func(p *Prog, r *Result) {
 				return false, "the list of candidate outputs is not built from findOutputs"
 			}
 			fo := mCall("bkl.findOutputs", func(t *T) bool {
-				return t.Op == "field" && t.Name == "Data" && t.Args[0].Op == "elem" && mResOf(0, mCall("bkl.(*Document).Process", mParam("doc"), mOp("field", mParam("p"))))(t.Args[0].Args[0])
+				return t.Op == "field" && t.Name == "Data" && t.Args[0].Op == "elem" && mResOf(0, mCall("bkl.(*Document).Process", mParam("doc")))(t.Args[0].Args[0])
 			})
 			nRoot, nSel := 0, 0
 			for _, it := range pr.paths {
